@@ -470,9 +470,19 @@ func (x *Exec) evalSel(env *Env, e *CSel) *Value {
 		}
 		// qualified constant pkg.Name
 		if _, bound := env.vars[id.Name]; !bound && x.lookupLocal(env, id.Name) == nil {
+			if id.Name == "os" && e.Name == "Args" {
+				if t := x.qualifiedType("[]string"); t != nil {
+					src := x.stateFor(env)
+					return &Value{T: x.heapIn(src, "G_"+sanitize("os.Args"), x.Sorts.SortOf(t)), Typ: t}
+				}
+			}
 			switch id.Name + "." + e.Name {
 			case "io.EOF", "io.ErrUnexpectedEOF", "bufio.ErrBufferFull", "io.ErrShortWrite", "io.ErrNoProgress", "bufio.ErrNegativeCount":
 				return x.knownGlobal(id.Name+"."+e.Name, types.Universe.Lookup("error").Type())
+			case "os.Stdout", "os.Stderr", "os.Stdin":
+				if t := x.qualifiedType("*os.File"); t != nil {
+					return x.knownGlobal(id.Name+"."+e.Name, t)
+				}
 			}
 			for short, pk := range x.P.TPkgs {
 				if short == id.Name || pk.Name() == id.Name {
@@ -1140,6 +1150,16 @@ func (x *Exec) evalCall(env *Env, c *CCall) *Value {
 		}
 		t, _ := x.resolveType(tn, env.pkg)
 		return boolV(and(not(eq(x.term(a), "0")), eq(app("dyntype", x.term(a)), fmt.Sprint(x.typeID(t)))))
+	case "holds":
+		// holds(i, v): the non-empty interface value i holds exactly the value v (of v's static type)
+		a, b := arg(0), arg(1)
+		if b.Typ == nil || isUntyped(b.Typ) {
+			x.limit("holds(): second argument needs a static type")
+		}
+		fs := x.Sorts.SortOf(b.Typ)
+		pf := "ipayload_" + sanitize(elemKey(b.Typ))
+		x.Reg.Add(pf, fmt.Sprintf("(declare-fun %s (Int) %s)", pf, fs))
+		return boolV(and(not(eq(x.term(a), "0")), eq(app("dyntype", x.term(a)), fmt.Sprint(x.typeID(b.Typ))), eq(app(pf, x.term(a)), x.termAs(b, b.Typ))))
 	case "same":
 		// identity of two values (for floats: the same value, not IEEE ==)
 		a, b := arg(0), arg(1)
